@@ -137,3 +137,78 @@ Proof.
     split; [|congruence].
     intros n Hn. rewrite NA2; [apply NA; exact Hn|]. apply NK. right; exact Hn.
 Qed.
+
+(* ---------- add_nodes_from with distinct new nodes ---------- *)
+
+Lemma loop_cons_ok {A} (f : hg -> A -> res) x xs s s1 w :
+  f s x = (s1, Ok, w) ->
+  st_of (loop f (x :: xs) s) = st_of (loop f xs s1) /\ out_of (loop f (x :: xs) s) = out_of (loop f xs s1).
+Proof.
+  intro H. simpl. rewrite H. destruct (loop f xs s1) as [[s2 o2] w2]. split; reflexivity.
+Qed.
+
+Definition newdict (a : attrs) (od : option attrs) : attrs :=
+  match od with None => a | Some d => aupdate a d end.
+
+Definition node_step (a : attrs) (s : hg) (it : lbl * option attrs) : res :=
+  let '(n, od) := it in
+  let nd := match od with None => a | Some d => aupdate a d end in
+  if has n (h_node s) then ok (nattr_update n nd s)
+  else if is_none n then raise s XGIError
+  else ok (nattr_update n nd (ensure_node n s)).
+
+Lemma add_nodes_from_loop items a s : add_nodes_from items a s = loop (node_step a) items s.
+Proof. reflexivity. Qed.
+
+Theorem build_nodes_effect items a : forall s,
+  Inv s -> NoDup (map fst items) ->
+  (forall it, In it items -> is_none (fst it) = false /\ ~ In (fst it) (nkeys s)) ->
+  let r := add_nodes_from items a s in
+  let t := st_of r in
+  out_of r = Ok /\ Inv t /\ nkeys t = nkeys s ++ map fst items /\ h_edge t = h_edge s /\ h_eattr t = h_eattr s /\
+  h_net t = h_net s /\ h_uid t = h_uid s /\
+  (forall it, In it items -> get (fst it) (h_nattr t) = Some (aupdate [] (newdict a (snd it))) /\
+                             mships t (fst it) = []) /\
+  (forall n, In n (nkeys s) -> get n (h_nattr t) = get n (h_nattr s) /\ mships t n = mships s n).
+Proof.
+  induction items as [|[n od] items IH]; intros s I ND Hn; cbv zeta; rewrite add_nodes_from_loop.
+  - simpl. unfold out_of, st_of. simpl. rewrite app_nil_r.
+    split; [reflexivity|]. split; [exact I|]. repeat (split; [reflexivity|]). split; [intros it []|auto].
+  - destruct (Hn (n, od) (or_introl eq_refl)) as [N1 N2]. simpl in N1, N2.
+    assert (Hh : has n (h_node s) = false) by (apply has_nIn; exact N2).
+    set (nd := newdict a od).
+    set (s1 := nattr_update n nd (ensure_node n s)).
+    assert (F : node_step a s (n, od) = (s1, Ok, O)).
+    { unfold node_step. rewrite Hh, N1. reflexivity. }
+    destruct (loop_cons_ok (node_step a) (n, od) items s s1 O F) as [E1 E2]. rewrite E1, E2.
+    assert (I1 : Inv s1) by (apply Inv_nattr_update; [apply ensure_node_has|apply Inv_ensure_node; exact I]).
+    assert (K1 : nkeys s1 = nkeys s ++ [n]).
+    { unfold s1. change (nkeys (nattr_update n nd ?x)) with (nkeys x). rewrite ensure_node_nkeys, Hh. reflexivity. }
+    inversion ND as [|? ? Hni ND']; subst.
+    assert (Hn1 : forall it, In it items -> is_none (fst it) = false /\ ~ In (fst it) (nkeys s1)).
+    { intros it Hit. destruct (Hn it (or_intror Hit)) as [A B]. split; [exact A|]. rewrite K1.
+      intro H. apply in_app_iff in H. destruct H as [H|[H|[]]]; [contradiction|].
+      apply Hni. rewrite H. apply (in_map fst items it Hit). }
+    specialize (IH s1 I1 ND' Hn1). cbv zeta in IH. rewrite add_nodes_from_loop in IH.
+    destruct IH as (O2 & I2 & K2 & E2' & EA2 & NT2 & U2 & New2 & Old2).
+    set (t := st_of (loop (node_step a) items s1)) in *.
+    split; [exact O2|]. split; [exact I2|].
+    split; [rewrite K2, K1, <- app_assoc; reflexivity|].
+    split; [rewrite E2'; unfold s1; simpl; apply ensure_node_edge|].
+    split; [rewrite EA2; unfold s1; simpl; apply ensure_node_eattr|].
+    split; [rewrite NT2; unfold s1; simpl; apply ensure_node_net|].
+    split; [rewrite U2; unfold s1; simpl; apply ensure_node_uid|].
+    split.
+    + intros it [<-|Hit]; [|apply New2; exact Hit]. simpl fst. simpl snd.
+      assert (Hin : In n (nkeys s1)) by (rewrite K1; apply in_app_iff; right; left; reflexivity).
+      destruct (Old2 n Hin) as [X Y]. rewrite X, Y. split.
+      * unfold s1, nattr_update. simpl. rewrite get_set_same. unfold ensure_node. rewrite Hh. simpl.
+        unfold geta. rewrite get_set_same. reflexivity.
+      * unfold s1. change (mships (nattr_update n nd ?x) n) with (mships x n). rewrite ensure_node_mships.
+        unfold mships. apply has_false_getl. exact Hh.
+    + intros m Hm. assert (Hin : In m (nkeys s1)) by (rewrite K1; apply in_app_iff; left; exact Hm).
+      destruct (Old2 m Hin) as [X Y]. rewrite X, Y. assert (Nm : m <> n) by (intro; subst; contradiction). split.
+      * unfold s1, nattr_update. simpl. rewrite get_set_other by exact Nm. unfold ensure_node. rewrite Hh. simpl.
+        apply get_set_other. exact Nm.
+      * unfold s1. change (mships (nattr_update n nd ?x) m) with (mships x m). apply ensure_node_mships.
+Qed.
